@@ -540,7 +540,15 @@ class Executor:
                     func=ast.Attribute(value=ast.Name(id=p1[0], ctx=ast.Load()), attr=p1[1], ctx=ast.Load()),
                     args=[merged], keywords=[])), b)
                 ast.fix_missing_locations(b)
+        acc_attr = None
         if isinstance(b, ast.Expr) and isinstance(b.value, ast.Call) and isinstance(b.value.func, ast.Attribute) \
+                and isinstance(b.value.func.value, ast.Attribute) and isinstance(b.value.func.value.value, ast.Name) \
+                and b.value.func.value.value.id == 'self' and b.value.func.attr in ('add', 'append') \
+                and len(b.value.args) == 1 and not b.value.keywords:
+            # self.xs = [] ; for ..: self.xs.append(e)    (an attribute as the accumulator)
+            acc_attr = b.value.func.value
+            acc, kind, elt = '@self.' + acc_attr.attr, ('set' if b.value.func.attr == 'add' else 'list'), b.value.args[0]
+        elif isinstance(b, ast.Expr) and isinstance(b.value, ast.Call) and isinstance(b.value.func, ast.Attribute) \
                 and isinstance(b.value.func.value, ast.Name) and b.value.func.attr in ('add', 'append') \
                 and len(b.value.args) == 1 and not b.value.keywords:
             acc, kind, elt = b.value.func.value.id, ('set' if b.value.func.attr == 'add' else 'list'), b.value.args[0]
@@ -554,7 +562,7 @@ class Executor:
             elt = b.value.right if (isinstance(b.value.left, ast.Name) and b.value.left.id == acc) else b.value.left
         else:
             return None
-        init = st.locals.get(acc)
+        init = st.locals.get(acc) if acc_attr is None else st.heap.get('self.' + acc_attr.attr)
         if init is None:
             return None
         if kind == 'set' and not (isinstance(init, ast.Call) and isinstance(init.func, ast.Name) and init.func.id == 'set'
@@ -569,6 +577,9 @@ class Executor:
                 if isinstance(c, (ast.Yield, ast.YieldFrom, ast.NamedExpr)):
                     return None
                 if isinstance(c, ast.Name) and c.id == acc:
+                    return None
+                if acc_attr is not None and isinstance(c, ast.Attribute) and c.attr == acc_attr.attr and isinstance(c.value, ast.Name) \
+                        and c.value.id == 'self':
                     return None
                 if isinstance(c, ast.Call):
                     f = c.func
@@ -594,7 +605,12 @@ class Executor:
                 st.locals[acc] = saved
             return None
         st2, v, _ = alts[0]
-        st2.locals[acc] = v
+        if acc_attr is not None:
+            tgt = copy.deepcopy(acc_attr)
+            tgt.ctx = ast.Store()
+            self.assign(tgt, v, st2, fctx, s.lineno)
+        else:
+            st2.locals[acc] = v
         return [(st2, ('fall',))]
 
     def _dict_fill(self, s, st: State, fctx: FuncInfo):
@@ -670,7 +686,43 @@ class Executor:
                 cur_st = outs[0][0]
         return [(cur_st, ('fall',))]
 
+    def _unroll_constants(self, s, st: State, fctx: FuncInfo):
+        """for x in ('a', 'b'): BODY   (a literal, or a class / module constant holding one, at most 8 constants, no
+        break / continue in BODY) is BODY[x:='a'] ; BODY[x:='b']"""
+        if not isinstance(s, ast.For) or s.orelse or not isinstance(s.target, ast.Name):
+            return None
+        it = s.iter
+        consts = None
+        if isinstance(it, (ast.Tuple, ast.List)):
+            consts = it
+        elif isinstance(it, ast.Attribute) and isinstance(it.value, ast.Name) and it.value.id in ('self', 'cls') and self.ctx is not None:
+            r = self.ctx.lookup_attr(it.attr)
+            if r is not None and isinstance(r[1], (ast.Tuple, ast.List)):
+                consts = r[1]
+        elif isinstance(it, ast.Name) and it.id not in st.locals:
+            r = self.repo.resolve_name(fctx.module, it.id)
+            if r and r[0] == 'global' and isinstance(r[2], (ast.Tuple, ast.List)):
+                consts = r[2]
+        if consts is None or not (1 <= len(consts.elts) <= 8) or not all(isinstance(e, ast.Constant) for e in consts.elts):
+            return None
+        if any(isinstance(n, (ast.Break, ast.Continue)) for b in s.body for n in ast.walk(b)):
+            return None
+        states = [(st, ('fall',))]
+        for c in consts.elts:
+            nxt = []
+            for cur, ex in states:
+                if ex[0] != 'fall':
+                    nxt.append((cur, ex))
+                    continue
+                cur.locals[s.target.id] = copy.deepcopy(c)
+                nxt.extend(self.exec_block(s.body, cur, fctx))
+            states = nxt
+        return states
+
     def exec_loop(self, s, st: State, fctx: FuncInfo):
+        red = self._unroll_constants(s, st, fctx)
+        if red is not None:
+            return red
         red = self._reduction(s, st, fctx)
         if red is not None:
             return red
@@ -1502,6 +1554,14 @@ class _Ev:
             r = x.repo.resolve_name(self.fctx.module, fname)
             if r and r[0] == 'ext':
                 fname = r[1]
+            if fname == 'getattr' and len(args) == 2 and not kwargs and isinstance(args[1], ast.Constant) and isinstance(args[1].value, str) \
+                    and args[1].value.isidentifier():
+                return self.load_attr(args[0], args[1].value, st)              # getattr(o, 'x') is o.x
+            if fname == 'setattr' and len(args) == 3 and not kwargs and isinstance(args[1], ast.Constant) and isinstance(args[1].value, str) \
+                    and args[1].value.isidentifier() and not self.pure:
+                tgt = ast.Attribute(value=args[0], attr=args[1].value, ctx=ast.Store())   # setattr(o, 'x', v) is o.x = v
+                x.assign(tgt, args[2], st, self.fctx, ln)
+                return [(st, ast.Constant(value=None), None)]
             if _is_exception_name(fname) and fname not in st.locals:
                 # constructing an exception object has no effect; its arguments are messages
                 return [(st, ast.Call(func=name(fname), args=[], keywords=[]), None)]
